@@ -10,6 +10,8 @@
 //          a<event id>:<primary seed>:<k>      run k steps of the event, then abort: state reset
 //          t<event id>:<primary seed>:<k>      run at most k loops, REPORT them as an event line
 //                                              (trunc=1 if unfinished), then reset the state
+//          q<event id>:<primary seed>          run until no track is alive while primaries are still
+//                                              queued (else to completion), then reset the state
 //          w                                   warm-up step
 //     After every completed event prints
 //       event id=<id> seed=<s> steps=<n delivered> hash=<fnv of the (track,step)-sorted stream>
@@ -278,7 +280,8 @@ void run_script(std::map<std::string, std::string> const& kv)
         }
         bool abort_ev = op[0] == 'a';
         bool trunc_ev = op[0] == 't';   // first k loops of the event are reported, rest dropped
-        if ((op[0] != 'e' && op[0] != 'a' && op[0] != 't')
+        bool qcut_ev = op[0] == 'q';    // cut where no track is alive but primaries are queued
+        if ((op[0] != 'e' && op[0] != 'a' && op[0] != 't' && op[0] != 'q')
             || f.size() != ((abort_ev || trunc_ev) ? 3u : 2u))
         {
             std::cout << "bad-op\n";
@@ -317,10 +320,23 @@ void run_script(std::map<std::string, std::string> const& kv)
         };
         StepperResult r = step(make_span(primaries));
         add(r);
-        while (r && loops < maxloops && !((abort_ev || trunc_ev) && loops >= f[2]))
+        auto at_qcut = [&] { return qcut_ev && r.alive == 0 && r.queued > 0; };
+        while (r && loops < maxloops && !((abort_ev || trunc_ev) && loops >= f[2]) && !at_qcut())
         {
             r = step();
             add(r);
+        }
+        if (qcut_ev)
+        {
+            // a step limit stops the event where all in-flight tracks have just died while
+            // primaries are still queued; the application resets the state
+            bool hit = r && at_qcut();
+            std::cout << "qcut id=" << id << " loops=" << loops << " hit=" << (hit ? 1 : 0)
+                      << " queued=" << r.queued << "\n";
+            if (r)
+                state.reset();
+            rec->take(0);
+            continue;
         }
         bool truncated = trunc_ev && r;
         if (abort_ev || (r && !trunc_ev))
